@@ -33,6 +33,8 @@ var c13Menu = []string{
 	"$v/self::comment()", "$v/self::processing-instruction()", "$v/self::processing-instruction('t')", "$v/@*", "$v/namespace::*", "$v/self::r",
 	// steps that gather the tree's own child/attribute/namespace lists of several context nodes
 	"//*/@*", "(/* | //b)/@*", "(/* | /*/c)/@*", "(/*/b[1] | //d)/@*", "(/*/b[1] | /*/c)/node()", "(/*/b[1] | //d)/namespace::*", "//*/namespace::*", "//*/*", "//*/node()", "//b/preceding-sibling::node()", "//c/following-sibling::node()", "//*/@*/..", "//b/ancestor::*/@*", "$v/*", "$v/node()",
+	// a call to the one function of the caller's own function table
+	"$v[one()]", "count($w) + one()",
 }
 
 var c13Ctx = []string{"/", "/0/0", "/0/@0"}
@@ -101,6 +103,7 @@ type c13World struct {
 	exprs  []*xsel.Grammar
 	nsMap  map[string]string
 	varMap map[xsel.XmlName]xsel.Result
+	fnMap  map[xsel.XmlName]xsel.Function
 }
 
 func newC13World(doc int) *c13World {
@@ -109,6 +112,8 @@ func newC13World(doc int) *c13World {
 		panic(err)
 	}
 	w := &c13World{b: b, nsMap: map[string]string{"p": adoc.URI_U}, varMap: map[xsel.XmlName]xsel.Result{}}
+	// a caller-owned function table with one function (the menu calls it)
+	w.fnMap = map[xsel.XmlName]xsel.Function{{Local: "one"}: func(xsel.Context, ...xsel.Result) (xsel.Result, error) { return xsel.Number(1), nil }}
 	for _, e := range c13Menu {
 		g := xsel.MustBuildExpr(e)
 		w.exprs = append(w.exprs, &g)
@@ -141,6 +146,7 @@ func (w *c13World) settings() []xsel.ContextApply {
 	return []xsel.ContextApply{func(c *xsel.ContextSettings) {
 		c.NamespaceDecls = w.nsMap
 		c.Variables = w.varMap
+		c.FunctionLibrary = w.fnMap
 	}}
 }
 
@@ -210,7 +216,12 @@ func (w *c13World) print(withExprs bool) c13Print {
 		vs = append(vs, k.String())
 	}
 	sort.Strings(vs)
-	p.varKey = strings.Join(vs, ",")
+	var fs []string
+	for k := range w.fnMap {
+		fs = append(fs, "fn:"+k.String())
+	}
+	sort.Strings(fs)
+	p.varKey = strings.Join(vs, ",") + ";" + strings.Join(fs, ",")
 	return p
 }
 
@@ -243,7 +254,7 @@ func (a c13Print) diff(b c13Print) string {
 		}
 	}
 	if a.ns != b.ns || a.varKey != b.varKey {
-		return "the caller's binding maps changed"
+		return fmt.Sprintf("the caller's binding maps changed: namespaces %s -> %s; variables;functions %s -> %s", a.ns, b.ns, a.varKey, b.varKey)
 	}
 	return ""
 }
